@@ -1003,6 +1003,11 @@ func xReplayWith(tag string) func(i int, raw json.RawMessage) Result {
 				return *r
 			}
 		}
+		if i == 0 && tag == "" && os.Getenv("VERIF_PROBE") == "C12" && os.Getenv("VERIF_TRACE") == "" {
+			if r := c12ArgumentFailures(); r != nil {
+				return *r
+			}
+		}
 		if i == 0 && tag == "alt" {
 			if r := c10PointerParam(); r != nil {
 				return *r
@@ -1017,6 +1022,9 @@ func xReplayWith(tag string) func(i int, raw json.RawMessage) Result {
 		if i == 0 && tag == "" && (strings.Contains(v.Tag, "|incif") || strings.Contains(v.Tag, "|include") || strings.Contains(v.Tag, "|exec")) && strings.Count(v.Tag, "|") == 3 {
 			// the families of Gen_C09 (tag: path|site|shape|returns)
 			if r := c09LateTemplate(); r != nil {
+				return *r
+			}
+			if r := c09PipedForms(); r != nil {
 				return *r
 			}
 			if r := xRecoveringFunc(); r != nil {
@@ -1646,3 +1654,95 @@ func c13BlocksAfterFailedBody() *Result {
 	}
 	return nil
 }
+
+// c09PipedForms: probe. exec / includeIfExists written with a piped value mean what the plain call means: the piped value is
+// the first argument unless a '_' says where it goes. The plain call is what the vectors judge; here every spelling of the
+// same call renders the same, with and without an explicit context, in two executions.
+func c09PipedForms() *Result {
+	for _, fn := range []string{"exec", "includeIfExists"} {
+		groups := [][]string{
+			{fn + `("/sub.jet", given)`, `"/sub.jet" | ` + fn + `: given`, `"/sub.jet" | ` + fn + `(_, given)`, `given | ` + fn + `("/sub.jet", _)`, `given | ` + fn + `: "/sub.jet", _`},
+			{fn + `("/sub.jet")`, `"/sub.jet" | ` + fn, `"/sub.jet" | ` + fn + `(_)`, `"/sub.jet" | ` + fn + `: _`},
+			{fn + `("/none.jet", given)`, `"/none.jet" | ` + fn + `: given`, `given | ` + fn + `("/none.jet", _)`},
+		}
+		for g, forms := range groups {
+			want := ""
+			for k, form := range forms {
+				l := jet.NewInMemLoader()
+				l.Set("/sub.jet", `[{{ . }}]{{ return . }}`)
+				l.Set("/main.jet", `<{{ `+form+` }}>{{ . }}`)
+				set := jet.NewSet(l)
+				t, err := set.GetTemplate("/main.jet")
+				if err != nil {
+					continue
+				}
+				for round := 0; round < 2; round++ {
+					var b bytes.Buffer
+					vars := jet.VarMap{}
+					vars.Set("given", "GIVEN")
+					err := safeExecute(t, &b, vars, "outer")
+					got := fmt.Sprintf("%s err=%v", b.String(), err != nil)
+					if k == 0 && round == 0 {
+						want = got
+					}
+					if got != want {
+						return &Result{Sig: map[string]interface{}{"kind": "piped-form", "tag": fmt.Sprint(fn, "|", g), "run": round, "errclass": ""}, Key: "probe",
+							Observed: got, Expected: want,
+							Detail: fmt.Sprintf("<{{ %s }}>{{ . }} rendered %q (err %v); written as %s it renders %q", form, b.String(), err, forms[0], want)}
+					}
+				}
+			}
+		}
+	}
+	return nil
+}
+
+// c12ArgumentFailures: probe. An argument Jet cannot pass to a Go function (nil or a value of the wrong kind at a fixed, the
+// first variadic or a later variadic position, written or piped) fails the execution with an error that names the file and
+// the 1-based line of the action - it never escapes as a panic or as a bare reflect message. Calls that succeed are not judged.
+func c12ArgumentFailures() *Result {
+	args := []string{"nil", "m.nokey", "xs", "m", "1", `"s"`, "true", "np", "ni"}
+	calls := []string{"one(%s)", "join(%s)", `join("-", %s)`, `join("-", "a", %s)`, `join("-", %s, "a")`, "nums(%s)", "nums(1, %s)", "nums(1, 2, %s)", "anys(%s)", "anys(1, %s)",
+		"%s | one", "%s | join", `%s | join: "a"`, `%s | join("-", _)`, `%s | join("-", "a", _)`, "%s | nums: 1", "%s | nums(1, _)", "ptr(%s)", "%s | ptr", "two(%s, %s)"}
+	judged := 0
+	for _, call := range calls {
+		for _, arg := range args {
+			expr := strings.Replace(call, "%s", arg, -1)
+			l := jet.NewInMemLoader()
+			l.Set("/w.jet", "line one\n{{ include \"/inc.jet\" }}")
+			l.Set("/inc.jet", "a\nb\n  {{ "+expr+" }}\nafter")
+			set := jet.NewSet(l)
+			set.AddGlobal("one", func(s string) string { return s })
+			set.AddGlobal("two", func(a int, b string) string { return b })
+			set.AddGlobal("join", func(sep string, parts ...string) string { return strings.Join(parts, sep) })
+			set.AddGlobal("nums", func(a int, more ...float64) int { return a + len(more) })
+			set.AddGlobal("anys", func(a ...interface{}) int { return len(a) })
+			set.AddGlobal("ptr", func(p *xProbeStruct) string { return "p" })
+			t, err := set.GetTemplate("/w.jet")
+			if err != nil {
+				continue
+			}
+			var b bytes.Buffer
+			vars := jet.VarMap{}
+			vars.Set("xs", []int{1}).Set("m", map[string]interface{}{"k": 1}).Set("np", (*xProbeStruct)(nil))
+			vars.Set("ni", nil)
+			err = safeExecute(t, &b, vars, nil)
+			if err == nil {
+				continue
+			}
+			judged++
+			msg := err.Error()
+			if strings.Contains(msg, "PANIC escaped") || !strings.Contains(msg, `"/inc.jet":3`) || strings.Contains(b.String(), "after") {
+				return &Result{Sig: map[string]interface{}{"kind": "argument-failure", "tag": call, "run": 0, "errclass": ""}, Key: "probe",
+					Observed: msg, Expected: `an error naming "/inc.jet":3, nothing rendered after the failing action`,
+					Detail: fmt.Sprintf("{{ %s }} on line 3 of /inc.jet failed with %q (output %q): the error of a failure Jet detects itself names the file and line of the action", expr, msg, b.String())}
+			}
+		}
+	}
+	if os.Getenv("VERIF_DEBUG") != "" {
+		fmt.Fprintln(os.Stderr, "c12ArgumentFailures: failing calls judged:", judged)
+	}
+	return nil
+}
+
+type xProbeStruct struct{ A int }
